@@ -2,6 +2,7 @@
 package lexer
 
 import (
+	"bytes"
 	"errors"
 	"fmt"
 	"io"
@@ -62,7 +63,18 @@ type Lexer struct {
 // New creates a new lexical analyzer for the EBNF language.
 // EBNF (Extended Backus-Naur Form) is used to define context-free grammars and their corresponding languages.
 func New(filename string, src io.Reader) (*Lexer, error) {
-	in, err := input.New(filename, src, bufferSize)
+	// The two-buffer reader reloads a half whenever the forward pointer crosses its end, even when
+	// it crosses it again after a retraction, and it keeps reporting the end of input after the last
+	// character has been retracted. So the whole specification is read up front, each half is made
+	// large enough to hold it, and a final newline guarantees that the last token has a lookahead.
+	data, err := io.ReadAll(src)
+	if err != nil {
+		return nil, err
+	}
+
+	data = append(data, '\n')
+
+	in, err := input.New(filename, bytes.NewReader(data), max(bufferSize, len(data)+1))
 	if err != nil {
 		return nil, err
 	}
